@@ -400,7 +400,8 @@ def blocks(intervals, amplitudes=None, name=None):
     v = [0]
     if amplitudes is None:
         amplitudes = itertools.cycle([1])
-    for _t, a in zip(intervals, amplitudes):
+    # step_function overwrites sequentially, so visit the blocks in time order
+    for _t, a in sorted(zip(intervals, amplitudes), key=lambda ta: tuple(ta[0])):
         t += list(_t)
         v += [a, 0]
     t.append(np.inf)
